@@ -21,7 +21,7 @@ import time
 
 VERIF = os.path.dirname(os.path.dirname(os.path.abspath(__file__)))
 SPEC = os.path.join(VERIF, "spec")
-HARNESS = os.path.join(VERIF, "harness")
+HARNESS = os.environ.get("VERIF_HARNESS_DIR") or os.path.join(VERIF, "harness")
 DRIVE = os.path.join(HARNESS, "target", "release", "drive")
 TLA_JAR = "/opt/veriftools/tla/tla2tools.jar:/opt/veriftools/tla/CommunityModules-deps.jar"
 NCPU = os.cpu_count() or 4
@@ -305,7 +305,12 @@ def match_known(known, prop, run, ev_index):
     return None
 
 
+SCRATCH = bool(os.environ.get("VERIF_SCRATCH"))  # mutant runs: never touch evidence/ or replays/
+
+
 def write_replay(prop, run, ev_index, why):
+    if SCRATCH:
+        return "/dev/null"
     os.makedirs(os.path.join(VERIF, "replays"), exist_ok=True)
     body = run_json(run)
     h = hashlib.sha1((body + str(ev_index)).encode()).hexdigest()[:12]
@@ -319,6 +324,8 @@ def write_replay(prop, run, ev_index, why):
 
 
 def write_evidence(prop, tier, seed, coverage, wall, violations, assumptions):
+    if SCRATCH:
+        return None
     os.makedirs(os.path.join(VERIF, "evidence"), exist_ok=True)
     doc = {"property_id": prop, "tier": tier, "seed": seed, "level": "model_checking",
            "coverage": coverage, "assumptions": assumptions, "wall_s": round(wall, 2),
